@@ -6,6 +6,38 @@ import TorchDataVerif.Proofs.PMInvC3
 namespace TDV.PM
 variable {c : Cfg} {s s' : State}
 
+/-- `__next__`'s early StopIteration: the reader has returned and the semaphore is back at its initial value — then every
+index was consumed, in particular the terminal: either `_done` is set or the source's error has been raised. -/
+theorem early_stop_facts (h : Inv c s) (hpc : s.cpc = .get) (hst : s.stop = false) (hr : s.rpc = .exited)
+    (hsem : s.sem = c.max) :
+    s.sem = c.max ∧ (s.done = true ∨ (c.term = .error ∧ c.src.length ∈ s.got)) := by
+  refine ⟨hsem, ?_⟩
+  have hp := h.permits
+  have hheld : held s = 0 := by omega
+  have hlost : s.lost = [] := List.eq_nil_of_length_eq_zero (by omega)
+  have hpull : s.pulled = c.src.length + 1 := by
+    rcases h.rExit (Or.inl hr) with h1 | h1
+    · rw [hst] at h1; simp at h1
+    · exact h1
+  have hgot : c.src.length ∈ s.got := by
+    have := drained h hheld (by simp [hpc, CPc.hand]) hlost c.src.length
+    rw [hpull] at this
+    simp at this
+    exact List.count_pos_iff.mp (by omega)
+  cases ht : c.term with
+  | stop => exact Or.inl (h.doneC ht (Or.inl hgot))
+  | error => exact Or.inr ⟨rfl, hgot⟩
+
+/-- While no stop event is set a worker that is not alive is a dead one (workers never exit before stop). -/
+theorem gone_is_dead (h : Inv c s) (hst : s.stop = false) (hmp : s.mpstop = false) (hany : s.wk.any WPc.gone = true) :
+    0 < deadCount s := by
+  rw [List.any_eq_true] at hany
+  obtain ⟨p, hp, hg⟩ := hany
+  cases p <;> simp [WPc.gone] at hg
+  · have := h.wExit _ hp (Or.inl rfl)
+    cases hpr : c.proc <;> simp [hpr, hst, hmp] at this
+  · exact deadCount_pos_of_mem hp
+
 theorem inv_stepC (h : Inv c s) {a : Action} (hs : stepC c s a = some s') : Inv c s' := by
   cases a <;> try (simp [stepC] at hs; done)
   case cBoot => obtain ⟨h1, _, rfl⟩ := spec_cBoot.mp hs; exact inv_cBoot h h1
@@ -17,26 +49,27 @@ theorem inv_stepC (h : Inv c s) {a : Action} (hs : stepC c s a = some s') : Inv 
     · rw [if_pos hst]
       exact inv_cIsSet_stop h h1 hst
     · rw [if_neg hst]
-      exact inv_cMove h .top .mp h1 rfl rfl rfl rfl rfl rfl (by simp) (by simp) (by simpa using hst) (by simp) (by simp) (by simp)
+      exact inv_cMove h .top .mp h1 rfl rfl rfl rfl rfl rfl (by simp) (by simp) (by simpa using hst) (by simp) (by simp) (by simp) (by simp)
   case cMpIsSet =>
     obtain ⟨h1, rfl⟩ := spec_cMpIsSet.mp hs
     have hst := stop_false_of h (by simp [h1])
     have hmp := mpstop_false_of h hst
     rw [if_neg (by simp [hmp])]
-    exact inv_cMove h .mp .chk h1 rfl rfl rfl rfl rfl rfl (by simp) (by simp) hst (by simp) (by simp) (by simp)
+    exact inv_cMove h .mp .chk h1 rfl rfl rfl rfl rfl rfl (by simp) (by simp) hst (by simp) (by simp) (by simp) (by simp)
   case cChk =>
     obtain ⟨h1, rfl⟩ := spec_cChk.mp hs
     have hst := stop_false_of h (by simp [h1])
     by_cases hf : s.done = true ∧ s.sem = c.max
     · have : (s.done && decide (s.sem = c.max)) = true := by simp [hf.1, hf.2]
       simp only [this, if_true]
-      exact inv_cMove h .chk .set1 h1 rfl rfl rfl rfl rfl rfl (by simp) (by simp) hst (by simp) (fun _ => hf) (by simp)
+      exact inv_cMove h .chk .set1 h1 rfl rfl rfl rfl rfl rfl (by simp) (by simp) hst (by simp)
+        (fun _ => Or.inr ⟨hf.2, Or.inl hf.1⟩) (by simp) (by simp)
     · have : (s.done && decide (s.sem = c.max)) = false := by
         cases hd : s.done
         · simp
         · simp [hd] at hf; simp [hf]
       simp only [this, Bool.false_eq_true, if_false]
-      exact inv_cMove h .chk .get h1 rfl rfl rfl rfl rfl rfl (by simp) (by simp) hst (by simp) (by simp) (fun _ => hf)
+      exact inv_cMove h .chk .get h1 rfl rfl rfl rfl rfl rfl (by simp) (by simp) hst (by simp) (by simp) (by simp) (fun _ => hf)
   case cSet => obtain ⟨h1, rfl⟩ := spec_cSet.mp hs; exact inv_cSet h h1
   case cMpSet => obtain ⟨h1, rfl⟩ := spec_cMpSet.mp hs; exact inv_cMpSet h h1
   case cGet =>
@@ -55,7 +88,32 @@ theorem inv_stepC (h : Inv c s) {a : Action} (hs : stepC c s a = some s') : Inv 
   case cGetT =>
     obtain ⟨h1, _, rfl⟩ := spec_cGetT.mp hs
     have hst := stop_false_of h (by simp [h1])
-    exact inv_cMove h .get .top h1 rfl rfl rfl rfl rfl rfl (by simp) (by simp) hst (by simp) (by simp) (by simp)
+    have hmp := mpstop_false_of h hst
+    unfold afterEmpty
+    split
+    · rename_i hcond
+      refine inv_cMove h .get .set1 h1 rfl rfl rfl rfl rfl rfl (by simp) (by simp) hst (by simp) (fun _ => Or.inr ?_) (by simp) (by simp)
+      exact early_stop_facts h h1 hst hcond.1 hcond.2
+    · split
+      · rename_i hany
+        refine inv_cMove h .get .dchk1 h1 rfl rfl rfl rfl rfl rfl (by simp) (by simp) hst (by simp) (by simp) (fun _ => ?_) (by simp)
+        exact gone_is_dead h hst hmp hany
+      · exact inv_cMove h .get .top h1 rfl rfl rfl rfl rfl rfl (by simp) (by simp) hst (by simp) (by simp) (by simp) (by simp)
+  case cDeadIsSet =>
+    obtain ⟨h1, rfl⟩ := spec_cDeadIsSet.mp hs
+    have hst := stop_false_of h (by simp [h1])
+    rw [if_neg (by simp [hst])]
+    exact inv_cMove h .dchk1 .dchk2 h1 rfl rfl rfl rfl rfl rfl (by simp) (by simp) hst (by simp) (by simp)
+      (fun _ => h.deadSeen (Or.inl h1)) (by simp)
+  case cDeadMpIsSet =>
+    obtain ⟨h1, rfl⟩ := spec_cDeadMpIsSet.mp hs
+    have hst := stop_false_of h (by simp [h1])
+    have hmp := mpstop_false_of h hst
+    rw [if_neg (by simp [hmp])]
+    exact inv_cMove h .dchk2 .dset1 h1 rfl rfl rfl rfl rfl rfl (by simp) (by simp) hst (by simp) (by simp)
+      (fun _ => h.deadSeen (Or.inr (Or.inl h1))) (by simp)
+  case cDeadSet => obtain ⟨h1, rfl⟩ := spec_cDeadSet.mp hs; exact inv_cDeadSet h h1
+  case cDeadMpSet => obtain ⟨h1, rfl⟩ := spec_cDeadMpSet.mp hs; exact inv_cDeadMpSet h h1
   case cRel =>
     obtain ⟨m, h1, h2, rfl⟩ := spec_cRel.mp hs
     cases hp : m.pay with
